@@ -241,7 +241,56 @@ def path_facts(path: Path, upto: int | None = None, versioned: bool | str = True
     if versioned == "entry+current":
         seen_ids = {id(f) for f in out}
         out = out + [f for f in entry if id(f) not in seen_ids]
+    if versioned is True:
+        out = propagate(out)
     return out
+
+
+def propagate(facts: list[Fact]) -> list[Fact]:
+    """Unit propagation through the disjunctions: with `A or B` (a failed `not A and not B` test) and `not A` known,
+    B holds.  Only adds facts (appended at the end); the disjunctions themselves stay."""
+    out = list(facts)
+    for _ in range(4):
+        atoms = {(f.kind, f.args): f.polarity for f in out if f.kind != "OR"}
+        keys = {(f.kind, f.args, f.polarity) for f in out if f.kind != "OR"}
+        added = False
+        for f in out:
+            if f.kind != "OR":
+                continue
+            live = []
+            for alt in f.parts:
+                dead = any(x.kind != "OR" and atoms.get((x.kind, x.args), x.polarity) != x.polarity for x in alt)
+                if not dead:
+                    live.append(alt)
+            if len(live) == 1:
+                for x in live[0]:
+                    if x.kind != "OR" and (x.kind, x.args, x.polarity) not in keys:
+                        out.append(x)
+                        keys.add((x.kind, x.args, x.polarity))
+                        added = True
+                    elif x.kind == "OR" and not any(y is x for y in out):
+                        out.append(x)
+                        added = True
+        if not added:
+            break
+    return out
+
+
+def contradictory(facts: list[Fact]) -> bool:
+    """The (versioned) facts of a path assert an atom both ways, or refute every alternative of a disjunction: no
+    execution takes the path."""
+    seen: dict[tuple, bool] = {}
+    for f in facts:
+        if f.kind == "OR":
+            continue
+        k = (f.kind, f.args)
+        if k in seen and seen[k] != f.polarity:
+            return True
+        seen[k] = f.polarity
+    for f in facts:
+        if f.kind == "OR" and all(any(x.kind != "OR" and seen.get((x.kind, x.args), x.polarity) != x.polarity for x in alt) for alt in f.parts):
+            return True
+    return False
 
 
 def _substitute(node: ast.AST, defs: dict[str, ast.expr], depth: int = 3) -> ast.expr | None:
